@@ -31,7 +31,7 @@ ASSUMPTIONS = [
 ]
 FLOORS = {"frames-recorded": 2000, "fault-runs": 300, "frames-that-raised": 100}
 SHARD_TIMEOUT = {"quick": 900, "thorough": 5400}
-TREES = {"quick": 32, "thorough": 600}
+TREES = {"quick": 32, "thorough": 300}
 VALUES = {"quick": 2, "thorough": 3}
 CAP = {"quick": 24, "thorough": 60}
 
